@@ -459,6 +459,8 @@ class PyFlow:
                     for x in ast.walk(n.target):
                         if isinstance(x, ast.Name):
                             out.append(x.id)
+                elif isinstance(n, ast.Call) and isinstance(n.func, ast.Name) and n.func.id in ("__preinc__", "__postinc__") and n.args and isinstance(n.args[0], ast.Constant):
+                    out.append(str(n.args[0].value))
         return out
 
     def loop(self, st: ast.stmt, p: Path, depth: int) -> List[Path]:
@@ -516,7 +518,7 @@ class PyFlow:
                 if bp.done in ("continue", "break"):
                     bp.done = None
             name = "for" if isinstance(st, ast.For) else "while"
-            ev = Ev("loop", name, [it], node=st, sub=body_paths, op=tag)
+            ev = Ev("loop", name, [it], {k_: v_ for k_, v_ in saved_vals.items() if v_ is not None and "." not in k_}, node=st, sub=body_paths, op=tag)
             q.effects.append(ev)
             for n in assigned:
                 q.env[n] = V(self.names.get(n, n) + tag + "'")
@@ -1237,6 +1239,12 @@ class PyFlow:
             return self.ev(e.args[1], p, depth, no_effect=no_effect)
         if fname == "str" and isinstance(f, ast.Name) and len(e.args) == 1:
             return [(q, tpl([v])) for q, v in self.ev(e.args[0], p, depth, no_effect=no_effect)]
+        if fname in ("__preinc__", "__postinc__") and isinstance(f, ast.Name) and len(e.args) == 2 and isinstance(e.args[0], ast.Constant):
+            nm = str(e.args[0].value)
+            old = p.env.get(nm, V(self.names.get(nm, nm)))
+            new = old + C(int(e.args[1].value))
+            p.env[nm] = new
+            return [(p, new if fname == "__preinc__" else old)]
         if fname == "__array__" and isinstance(f, ast.Name) and len(e.args) == 3 and isinstance(e.args[0], ast.Constant):
             return [(q, Poly.atom(("arr", str(e.args[0].value), str(e.args[1].value), v))) for q, v in self.ev(e.args[2], p, depth, no_effect=True)]
         if fname == "__ptr__" and isinstance(f, ast.Name) and len(e.args) == 2 and isinstance(e.args[0], ast.Constant):
